@@ -40,7 +40,7 @@ def _scenario(draw, tier):
         d=d, n0=n0, seed=draw(st.integers(0, 2 ** 32 - 1)),
         acq=draw(st.sampled_from(["EI", "EI", "UCB", "MaxVar"])),
         optimizer=draw(st.sampled_from(["bfgs", "bfgs", "diffev"])),
-        y_err=draw(st.booleans()),
+        y_err=draw(st.booleans()), n_processes=draw(st.sampled_from([1, 1, 2, 3])),
         x_form=draw(st.sampled_from(["2d", "2d", "1d", "list"])),
         newx_form=draw(st.sampled_from(["row", "flat", "scalar", "list"])),
         lo=draw(st.sampled_from([0.0, -2.0, 10.0])), width=draw(st.sampled_from([1.0, 4.0])),
@@ -182,7 +182,7 @@ def execute(sc):
     bounds = [(sc["lo"], sc["lo"] + sc["width"])] * d
     lo = np.array([b[0] for b in bounds])
     hi = np.array([b[1] for b in bounds])
-    with seams.Seams(clock=None, tripwires=True):
+    with seams.Seams(clock=None, tripwires=True, sync_pool=True):
         from inference.gp import GpOptimiser, ExpectedImprovement, UpperConfidenceBound, MaxVariance
 
         X0 = lo + (hi - lo) * g.random((sc["n0"], d))
@@ -201,7 +201,7 @@ def execute(sc):
         acq = acq(kappa=sc["kappa"]) if sc["acq"] == "UCB" else acq
         try:
             opt = lib_call("GpOptimiser()", GpOptimiser, x_in, y_in, bounds=bounds, y_err=e_in, acquisition=acq,
-                           optimizer=sc["optimizer"])
+                           optimizer=sc["optimizer"], n_processes=int(sc.get("n_processes", 1)))
         except LibRaised as e:
             _viol(V, "op.raised", str(e))
             opt = None
@@ -309,6 +309,8 @@ def execute(sc):
                 model_ok("after %s" % name)
             if not V:
                 spot_oracles(V, opt, sc, bounds, og, stats)
+    for k2, v in c.stats.items():
+        stats[k2] += v
     return dict(violations=V, stats=dict(stats), digest=digest(sc), nontrivial=stats["proposals"] > 0 or len(my) > sc["n0"],
                 shape="%s/%s/d%d/%s" % (sc["acq"], sc["optimizer"], sc["d"], ",".join(o[0] for o in sc["ops"])), sim_seconds=0.0)
 
@@ -322,7 +324,8 @@ def describe():
               "passed is byte- and shape-identical. Spot oracles at reached states: EI (both branches) vs quadrature, UCB, max-variance, "
               "objective/gradient consistency vs central differences. Non-trivial = at least one proposal or added evaluation."),
         real_vs_stub=dict(real=["GpOptimiser", "acquisition classes", "GpRegressor (refit on every add)", "scipy optimisers"],
-                          stub=["legacy numpy.random global stream (seeded per run)", "multiprocessing.Pool is trip-wired (n_processes=1)"]),
+                          stub=["legacy numpy.random global stream (seeded per run)", "multiprocessing.Pool -> synchronous pickling stand-in "
+                                "(n_processes in {1,2,3}; the pool carries no scheduling clause in C18)"]),
         assumptions=["SCOPED CLAIM: only the history clauses of C18 are decided; the formula clauses are pure functions and are only "
                      "spot-checked at states the histories reach (no coverage 'for all predictive means and variances' is claimed)",
                      "EI reference: adaptive quadrature, relative 1e-6 in log space, |Z| <= 30"],
